@@ -666,9 +666,15 @@ pub fn fuzz_part() -> CustomPart {
                     // cargo-fuzz compiles with --cfg fuzzing, under which bitcode accepts trailing
                     // bytes; the normal build rejects them. So an artifact that passes here is
                     // retried on its own prefixes (the image without the trailing garbage).
-                    let mut hit: Option<(Vec<u8>, oracle::OFail)> = match oracle::run_target(t, &b, &mut obs) {
-                        Ok(()) => None,
-                        Err(f) => Some((b.clone(), f)),
+                    // An input that makes the product abort the process (an allocation nobody can
+                    // serve, a stack overflow) would take this binary down with it: try it in a child
+                    // first and report the abort as what it is.
+                    let mut hit: Option<(Vec<u8>, oracle::OFail)> = match run_target_in_child(t, &b) {
+                        Some(msg) => Some((b.clone(), oracle::OFail { sig: format!("abort:{t}"), msg })),
+                        None => match oracle::run_target(t, &b, &mut obs) {
+                            Ok(()) => None,
+                            Err(f) => Some((b.clone(), f)),
+                        },
                     };
                     if hit.is_none() {
                         let keep = usize::from(t == "frame" || t == "wal");
@@ -747,6 +753,37 @@ pub fn calibrate(args: &[String]) -> i32 {
     }
     for (t, (r, a, l)) in worst {
         println!("{t}: worst allocation/input = {r:.0} ({a} bytes from {l} input bytes)");
+    }
+    0
+}
+
+/// Runs one fuzz-target input through the oracle in a child process. `Some(description)` iff the
+/// child was killed by a signal (abort on an unservable allocation, stack overflow ...).
+fn run_target_in_child(target: &str, bytes: &[u8]) -> Option<String> {
+    use std::os::unix::process::ExitStatusExt;
+    let exe = std::env::current_exe().ok()?;
+    let dir = nv_engine::scratch::Dir::new("c20-artifact");
+    let file = dir.join("input");
+    std::fs::write(&file, bytes).ok()?;
+    let out = std::process::Command::new(exe).args(["child", "run-target", target, &file.to_string_lossy()]).output().ok()?;
+    out.status.signal().map(|sig| {
+        let err = String::from_utf8_lossy(&out.stderr);
+        let first = err.lines().find(|l| !l.trim().is_empty()).unwrap_or("").to_string();
+        format!("the decoder of target {target} killed the process (signal {sig}) on a {}-byte input: {first}", bytes.len())
+    })
+}
+
+/// `nv_c20 child run-target <target> <file>`: child side of [`run_target_in_child`].
+pub fn run_target_child(args: &[String]) -> i32 {
+    let (Some(t), Some(f)) = (args.first(), args.get(1)) else {
+        println!("usage: child run-target <target> <file>");
+        return 2;
+    };
+    let Ok(bytes) = std::fs::read(f) else { return 2 };
+    let mut obs = Obs::default();
+    match oracle::run_target(t, &bytes, &mut obs) {
+        Ok(()) => println!("RUN-TARGET ok"),
+        Err(e) => println!("RUN-TARGET fail {} :: {}", e.sig, e.msg),
     }
     0
 }
